@@ -27,7 +27,7 @@ FULL = W - 1
 THEOREMS = ["Kdf.Props.C08." + t for t in (
     "direct_def", "rdirect_direct_id", "physmaps_ident", "layout_plain", "layout_total", "fast_linear_kv", "fast_linear_kphys",
     "scanner_lowest_mapped", "scanner_lowest_unmapped", "scanner_highest_mapped", "highest_linear_sound",
-    "x64_highest_linear_sound")]
+    "x64_highest_linear_sound", "check_pae_sound", "ia32_root_exact", "xen_text_pick_sound")]
 
 
 # ------------------------------------------------------------------- img stream
@@ -171,6 +171,86 @@ def run_img(R, exe, img, rng, timeout=120):
     rc, out, err = R.run_harness(exe, stdin_text="\n".join(L) + "\n", timeout=timeout)
     obs = kdf.obs(out)
     return L, obs, rc, err
+
+
+# ------------------------------------------------------------------- ospick: probing decisions of the set-up, real C vs Lean model
+def map_ranges(m):
+    out, start = [], 0
+    if not m or m in ("none", "empty"):
+        return out
+    for r in m.split(","):
+        e, me = r.split(":")
+        out.append((start, start + int(e), int(me)))
+        start += int(e) + 1
+    return out
+
+
+def pick_job(gen, img, st):
+    """(driver script, what the implementation decided in the same terms) for the decision points of
+    Kdf.Model.OsPick this image exercises, or None"""
+    if gen not in ("gen_ia32_linux", "gen_x86_64_xen") or len(img.cells) > 6000:
+        return None
+    base = [l for l in img.setup_lines() if l.split()[0] in ("clr", "mem", "rcaps", "ovr")]
+    sym = {(k, n): v for k, n, v in img.syms}
+    m0 = st["meths"].get(0)
+    ops, impl = [], []
+    if gen == "gen_ia32_linux":
+        opt = img.opts.get("rootpgt")
+        cr3, sw = sym.get(("reg", "cr3")), sym.get(("sym", "swapper_pg_dir"))
+        if "phys_bits" not in img.opts and (opt or sw is not None):
+            ras, raddr = opt.split(":") if opt else ("2", str(sw))
+            ops += ["layout 1 %d:%d:2:1" % (0xc0000000, 0xffffffff), "ospick pae %s %s %d" % (ras, raddr, 0xc0000000)]
+            if st["osinit"] == "ok" and m0 and m0[0] == "pgt":
+                impl.append("ospick pae %s" % {"ia32_pae": "52", "ia32": "32"}.get(m0[1], m0[1]))
+            else:
+                impl.append("ospick pae fail" if st["osinit"] != "ok" else "ospick pae ?")
+        if st["osinit"] == "ok" and m0 and m0[0] == "pgt":
+            oa, ob = opt.split(":") if opt else ("-", "0")
+            ops.append("ospick root %s %s %s %s" % (oa, ob, "-" if cr3 is None else cr3, "-" if sw is None else sw))
+            impl.append("ospick root %s %s" % (m0[3], m0[4]))
+    else:
+        d = img.desc
+        if not (st["osinit"] == "ok" and img.root_known and d.get("variant") != "bigmem" and m0 and m0[0] == "pgt"):
+            return None
+        ops += ["physmaps %d" % ((1 << 52) - 1), "meth 0 pgt x86_64 1 1 %d 0 12,9,9,9,9" % d["root_pa"], "ospick xentext 0"]
+        rs = map_ranges(st["maps"].get(1))
+        kt = [r for r in rs if r[2] == 3 and r[0] >> 47]
+        dm = [r for r in rs if r[2] == 2]
+        t1 = bool(dm) and dm[0][1] - dm[0][0] + 1 == 1 << 40
+        impl.append(("ospick xentext %d %d" % (kt[0][0], 1 if t1 else 0)) if kt else "ospick xentext none" if t1 else "ospick xentext ?")
+    if not ops:
+        return None
+    return base + ops, impl
+
+
+def run_picks(R, picks):
+    """picks: list of (name, gen, seed, force, img, script, impl).  One driver run; returns number compared."""
+    kinds = {}
+    if not picks:
+        return 0, kinds
+    text = "\n".join(l for p in picks for l in p[5]) + "\n"
+    model = [o for o in kdf.obs(R.run_driver("os", text)) if o.startswith("ospick")]
+    k, n = 0, 0
+    for name, gen, seed, force, img, script, impl in picks:
+        mine = model[k:k + len(impl)]; k += len(impl)
+        n += len(impl)
+        for a in mine:
+            kk = " ".join(a.split()[:2]) + (" " + a.split()[2] if a.split()[1] in ("pae",) or a.endswith("none") else "")
+            kinds[kk] = kinds.get(kk, 0) + 1
+        # a failed set-up is only comparable when the model says the probe fails (other steps can fail as well)
+        cmp_ = [(a, b) for a, b in zip(impl, mine) if not (a == "ospick pae fail" and b != a)]
+        bad = [(a, b) for a, b in cmp_ if a != b]
+        if bad:
+            a, b = bad[0]
+            rep = dict(stream="ospick", scenario=name, generator=gen, gen_seed=seed, force=force, params=summarize(img.desc),
+                       implementation=a, model=b, options=img.opts, symbols=[(x, y, hex(v)) for x, y, v in img.syms],
+                       how="python3 tools/check.py C08 --replay <this file> regenerates the image, runs harness/s_os.c and the driver ops")
+            if len(script) <= 6000:
+                rep["input"] = "\n".join(script) + "\n"
+            R.violation("set-up decision on the image's page tables: the implementation decided `%s`, the model (Kdf.Model.OsPick) `%s`  "
+                        "[image: %s %s]" % (a, b, name if name != "random" else gen, summarize(img.desc)), rep)
+            break
+    return n, dict(sorted(kinds.items()))
 
 
 # ------------------------------------------------------------------- os stream (unit scripts)
@@ -595,6 +675,7 @@ def run(R):
                after_failed_init=0)
     per_gen, hist, nontriv = {}, {}, 0
     samples = []
+    picks = []
     import time
     t_img = time.time()
     budget = 40 if quick else 700
@@ -625,6 +706,9 @@ def run(R):
                 mi = meth_of(st["maps"], st["meths"], 1, va)
                 if mi is not None and mi >= 0 and st["meths"].get(mi, ["?"])[0] == "linear" and img.walk(va) is not None:
                     nontriv += 1
+        pj = pick_job(gen, img, st)
+        if pj is not None:
+            picks.append((name, gen, seed, force, img, pj[0], pj[1]))
         if len(samples) < 2 and name != "random":
             samples.append(dict(scenario=name, params=summarize(img.desc), osinit=st["osinit"],
                                 kv_phys_map=st["maps"].get(1, "")[:160], first_queries=[o for o in obs if o.startswith("q ")][:2]))
@@ -651,6 +735,7 @@ def run(R):
                 rep["input"] = "\n".join(small) + "\n"
             R.violation("%s  [image: %s %s]" % (msg, name if name != "random" else gen, summarize(img.desc)), rep, key=key)
             break
+    npick, pick_kinds = run_picks(R, picks) if not R.violations else (0, {})
     if not R.violations and proof["broken"]:
         R.violation("proof obligations broken: %s" % proof["broken"],
                     dict(stream="lean", broken_theorems=proof["broken"], lean_log=proof["log"][-2000:]), found_input=False)
@@ -680,7 +765,7 @@ def run(R):
                     "around every region of the image and every range the library created, interiors, 2M/1G boundaries; non-trivial = mapped "
                     "addresses answered by a LINEAR fast path of the library; unit: random layouts for sys_set_layout/sys_set_physmaps and random "
                     "x86-64 tables for the scanners, implementation vs Lean model and vs interval oracle",
-               samples=samples, traces_validated_against_impl=unit_obs, unit_scan_vs_oracle=unit_scan_checked,
+               samples=samples, traces_validated_against_impl=unit_obs + npick, setup_decisions_vs_model=npick, setup_decision_kinds=pick_kinds, unit_scan_vs_oracle=unit_scan_checked,
                unit_case_kinds=dict(sorted(unit_kinds.items())), images=tot, images_per_generator=per_gen,
                parameter_histogram=dict(sorted(hist.items())), scenarios=[s[0] for s in SCENARIOS])
     return "proof", cov, ["get_page is a deterministic function of the page address",
@@ -715,6 +800,17 @@ def replay(R, path):
             print("FAIL:", msg)
         print("no failure" if not fails else "%d failing observations" % len(fails))
         return 1 if fails else 0
+    if rep.get("stream") == "ospick":
+        img, rng = make_image(rep["generator"], rep["gen_seed"], rep.get("force"))
+        L, obs, rc, err = run_img(R, exe, img, rng)
+        _, st = eval_img(img, obs)
+        pj = pick_job(rep["generator"], img, st)
+        model = [o for o in kdf.obs(R.run_driver("os", "\n".join(pj[0]) + "\n")) if o.startswith("ospick")]
+        bad = 0
+        for a, b in zip(pj[1], model):
+            print("impl:", a, "| model:", b)
+            bad += a != b and not (a == "ospick pae fail")
+        return 1 if bad else 0
     lines = [l for l in rep["input"].split("\n") if l]
     text = "\n".join(lines) + "\n"
     rc, out, err = R.run_harness(exe, stdin_text=text, timeout=120)
